@@ -121,6 +121,11 @@ def rand_switch(r, T, p_default=0.3, need_active=False):
     if kind == "fixed":
         n = int(r.integers(1, max(2, T // 2 + 1)))
         steps = sorted(int(x) for x in r.choice(T, size=min(n, T), replace=False))
+        u2 = r.uniform()
+        if u2 < 0.12:
+            steps = []  # a valid schedule with no active step at all
+        elif u2 < 0.5 and len(steps) > 1:
+            steps = [int(x) for x in r.permutation(steps)]  # the list is a set of steps: its order must not matter
         return {"fixed_on_time_steps": steps}
     a = int(r.integers(0, T)) + 0.5
     b = int(r.integers(int(a), T + 2)) + 0.5
